@@ -48,7 +48,7 @@ func (c05Checker) Meta() CheckerMeta {
 		Real:        []string{"pongo2 package (execution entry points, FromCache/FromFile/FromString, every tag/filter the generator writes)", "pongo2.FSLoader / HttpFilesystemLoader", "sync.Mutex", "Go race detector (happens-before)"},
 		Stub:        []string{"goroutine scheduling choices (seeded cooperative scheduler, invisible to the race detector)", "caller's io.Writer", "context call-backs", "template files (in-memory disk)"},
 		Assumptions: []string{"BanTag/BanFilter, Register*/Replace*, SetAutoescape and changing Options/Debug while executing are documented as set-up operations and are not interleaved", "the race detector sees only executed paths", "the static half of the quantifier is not attempted"},
-		QuickRuns:   6000, QuickRace: 2000,
+		QuickRuns:   4000, QuickRace: 1200,
 	}
 }
 
@@ -258,6 +258,7 @@ func (c05Checker) Run(tp *Tapes, opt RunOpt) *Outcome {
 					out.HarnessErr = "missing result"
 					return out
 				}
+				out.dig(got.String())
 				// fresh world: new set over the same files, fresh compile, no other task
 				rwld := NewWorld([]*DiskSpec{disk})
 				SetCurWorld(rwld)
